@@ -422,10 +422,23 @@ def fresh_count(ctx, rid="C16.count"):
     stops while objects are still pending)"""
     ctx.rule(rid, "destroyObjects() does not return a count taken before its unlocked phase without trying to re-lock", floor=1)
     n = 0
+    # the clause matters where somebody ACTS on the count: a member of the class whose control flow depends on what
+    # destroyObjects() returned (a loop that drains until it reports zero)
+    relied = None
+    for g in ctx.fb.functions(rec=DD):
+        for c in g.stmts.values():
+            if c["k"] == "CXXMemberCallExpr" and (c.get("callee") or {}).get("name") == "destroyObjects" and not c.get("args") and \
+                    path(g, g.s(c.get("obj"))) in ("this", "*this"):
+                for b in g.blocks.values():
+                    if b.term and b.term.get("cond") and any(x["id"] == c["id"] for x in g.descendants(g.s(b.term["cond"]))):
+                        relied = (g, c)
     for f in ctx.fb.functions(rec=DD, name="destroyObjects"):
         if f.params:
             continue
         n += 1
+        if relied is None:
+            ctx.ob(rid, True, f.where, "no member of the class steers by the count destroyObjects() returns", "", fn=f.label, inst=f.qname)
+            continue
         sized = {}      # local -> positions where it is assigned from ElementsToBeDestroyed.size()
         for st in f.stmts.values():
             tgt = src = None
